@@ -86,6 +86,10 @@ def plan_scenario(plans, sid, nkeys=12):
             faults.append(dict(site=site, rid="q", kind=fk))
         elif site in ("store.fetch.enter", "store.store.enter", "store.batch.enter"):
             faults.append(dict(site=site, rid="q", key=kname, kind="error"))
+            if fk == "error-denied-first":
+                ents[0] = dict(k=0, s=3, t=1, root="A")        # target before source: refused by the rules themselves
+            elif fk == "error-denied-last":
+                ents[-1] = dict(k=len(ents) - 1, s=3, t=1, root="A")
         elif site == "record":
             prior.append(dict(k=i, kind="prop" if kind == "prop" else "att", fmt=fk))
         elif site == "store":
